@@ -146,6 +146,11 @@ def obligations(tier, seed):
         obs.append(ob("c07.search_seq3.%s" % scheme, "harness.c07", "h_search_pure",
                       {"scheme": scheme, "over": {}, "lens": [2, 1] if tier == "quick" else [3, 2, 1],
                        "seed": seed, "depth": 3}, budget_s=400))
+    # DP17 with locality > 1: lists that span several chunks (the only place where setup reorders postings)
+    for lens in ([4, 3, 1], [2, 1]):
+        over = {"param_L": 2, "param_actual_storage_level_ratio": 1.0}
+        obs.append(ob("c07.setup_pure.DP17.Pi.L2.%s" % "-".join(map(str, lens)), "harness.c07", "h_setup_pure",
+                      {"scheme": "DP17.Pi", "over": over, "lens": lens, "seed": seed}, budget_s=240))
     obs.append(twin("c07.setup.twin", "harness.c07", "h_setup_pure",
                     {"scheme": "CT14.Pi", "over": {}, "lens": [3, 1], "twin": True}))
     obs.append(twin("c07.search.twin", "harness.c07", "h_search_pure",
